@@ -70,7 +70,8 @@ func c20Case(w *core.Worker, i int) {
 		case c == 5:
 			hist = append(hist, stmt{"select", "SELECT a.id, b.ver, a.note FROM t a JOIN t b ON a.id = b.id;"})
 		case c == 6:
-			hist = append(hist, stmt{"forupdate", "SELECT id, ver, note FROM t FOR UPDATE;"})
+			// FOR UPDATE holds every table of the query, also one that is only joined
+			hist = append(hist, stmt{"forupdate", []string{"SELECT id, ver, note FROM t FOR UPDATE;", "SELECT t.id, t.ver, t.note FROM u JOIN t ON u.id = t.id FOR UPDATE;", "SELECT t.id, t.ver, t.note FROM u, t WHERE u.id = t.id FOR UPDATE;"}[r.Intn(3)]})
 		case c <= 8:
 			hist = append(hist, stmt{"update", fmt.Sprintf("UPDATE t SET note = 'A%d' WHERE id = %d;", k, r.Range(1, 3))})
 		case c == 9:
@@ -110,6 +111,7 @@ func c20Run(w *core.Worker, ci int, hsql []string, kind func(int) string, gaps [
 	dir := core.FreshDir(w.Work, "repo")
 	disk := []c20Row{{"1", "v0", "n"}, {"2", "v0", "n"}, {"3", "v0", "n"}}
 	_ = os.WriteFile(filepath.Join(dir, "t.csv"), []byte(c20Render(disk)), 0644)
+	_ = os.WriteFile(filepath.Join(dir, "u.csv"), []byte("id\n1\n2\n3\n101\n102\n103\n104\n105\n106\n107\n108\n109\n"), 0644)
 	s, err := core.NewSess(core.SessOpts{Dir: dir, Quiet: true, WaitTimeout: 0.3})
 	if err != nil {
 		w.Inconclusive(err.Error())
